@@ -225,3 +225,64 @@ def guarded(fn, sink_bb, permitting_edges):
 def unguarded_path(fn, sink_bb, permitting_edges):
     fn = F(fn) if isinstance(fn, dict) else fn
     return fn.path(0, {sink_bb}, removed_edges=permitting_edges)
+
+
+def compare_seeds(fn, pred):
+    """seeds for boolean locals assigned from a comparison `bin(op, a, b)` accepted by
+    pred(op, a, b, bb) -> parity (True if the local is true when the wanted condition holds,
+    False if it is false then, None to skip)."""
+    fn = F(fn) if isinstance(fn, dict) else fn
+    seeds = {}
+    for l, dl in fn.defs.items():
+        if len(dl) != 1:
+            continue
+        b, k, rv = dl[0]
+        if k != 'A' or rv[0] != 'bin' or rv[1] not in ('Eq', 'Ne', 'Lt', 'Le', 'Gt', 'Ge'):
+            continue
+        par = pred(rv[1], rv[2], rv[3], b)
+        if par is None:
+            continue
+        seeds[l] = ('bool', bool(par))
+    return seeds
+
+
+def param_flag_edges(fn, name):
+    """edges testing a boolean parameter / named local"""
+    fn = F(fn) if isinstance(fn, dict) else fn
+    seeds = {l: ('bool', True) for l in fn.local_of(name) if fn.local_ty(l) == 'bool'}
+    if not seeds:
+        return set(), set(), []
+    return test_edges(fn, seeds)
+
+
+def enum_variant_edges(fn, local_pred, variant_index):
+    """edges of switches on `discriminant(L)` (L satisfying local_pred) that are taken when
+    the value is the variant with the given index; and the complementary edges."""
+    fn = F(fn) if isinstance(fn, dict) else fn
+    pos, neg = set(), set()
+    dl = {}
+    for l, defs in fn.defs.items():
+        if len(defs) == 1 and defs[0][1] == 'A' and defs[0][2][0] == 'discr':
+            pl = defs[0][2][1]
+            if all(p == '*' for p in pl[1]) and local_pred(pl[0]):
+                dl[l] = True
+    for b in fn.g:
+        t = fn.term(b)
+        if t['k'] != 'switch':
+            continue
+        l = op_local(t['d'])
+        if l not in dl:
+            continue
+        explicit = {int(v): tb for v, tb in t['v']}
+        if variant_index in explicit:
+            pos.add((b, explicit[variant_index]))
+            for v, tb in explicit.items():
+                if v != variant_index:
+                    neg.add((b, tb))
+            neg.add((b, t['o']))
+        else:
+            pos.add((b, t['o']))
+            for tb in explicit.values():
+                neg.add((b, tb))
+    both = pos & neg
+    return pos - both, neg - both
